@@ -181,7 +181,7 @@ func (c SeriesCheck) Check(ctx context.Context, entry discovery.Entry, entries [
 		if metricName == "ALERTS" || metricName == "ALERTS_FOR_STATE" {
 			var alertname string
 			for _, lm := range selector.LabelMatchers {
-				if lm.Name == "alertname" && lm.Type != labels.MatchRegexp && lm.Type != labels.MatchNotRegexp {
+				if lm.Name == "alertname" && lm.Type == labels.MatchEqual {
 					alertname = lm.Value
 				}
 			}
